@@ -6,7 +6,7 @@ from fractions import Fraction
 
 import numpy as np
 
-from .common import Disagreement, drive, qs, parse_qs, ROOT
+from .common import Disagreement, drive, q, qs, parse_qs, ROOT
 
 PROP_MODULE = 'PbVerif.Props.C14'
 RULE = ('cases = (method, N or shape, half window(s), filter order, window order, data kind, shift); bit-exact model '
@@ -16,6 +16,7 @@ ASSUMPTIONS = [
     'Qhull (scipy.spatial.ConvexHull): only its output mask is certified by the decidable lower-hull certificate',
     'np.pad modes / pad_edges produce the padding handed to the snip loop (C18)',
     'float min/max/0.5*(a+b) are exact on integer-valued data',
+    'np.interp computes slope*(x-xp[j])+fp[j] with correctly rounded IEEE operations: at most 11 half-ulp of max|y| from the exact value, exact at the samples (model hullInterp; bound 16 half-ulp checked)',
 ]
 
 
@@ -60,6 +61,40 @@ def close_list(a, pred, tol=1e-11):
     return bool(np.allclose(a, p, rtol=tol, atol=tol * max(1.0, float(np.max(np.abs(p))) if len(p) else 1.0)))
 
 
+INTERP_TOL_ULPS = 8     # np.interp does (fp[j+1]-fp[j])/(xp[j+1]-xp[j]) * (x-xp[j]) + fp[j]: three differences, a quotient, a product
+#                         and a sum, each within half an ulp; |slope*(x-xp[j])| <= 2 max|y| and |result| <= max|y|, so the float result is
+#                         within 11 * 2**-53 * max|y| of the exact rational value; 8 ulp = 16 * 2**-53 leaves room and is still 1e-15 relative
+
+
+def interp_mismatch(real, pred, mask, yscale):
+    """None when the real rubberband baseline equals the exact model interpolant: bit-exact at the masked vertices (np.interp
+    returns fp[j] there) and within INTERP_TOL_ULPS ulp of max|y| elsewhere (all comparisons in exact rationals)"""
+    real = np.asarray(real, dtype=float).ravel()
+    if len(real) != len(pred):
+        return f'length {len(real)} != {len(pred)}'
+    tol = Fraction(INTERP_TOL_ULPS * float(np.finfo(float).eps)) * Fraction(float(yscale))
+    for i, (v, p_) in enumerate(zip(real, pred)):
+        if not np.isfinite(v):
+            return f'index {i}: non-finite baseline {v}'
+        d = abs(Fraction(float(v)) - p_)
+        if (mask[i] and d != 0) or d > tol:
+            return f'index {i}: baseline {float(v)!r} vs exact interpolant {float(p_)!r} (diff {float(d):.3g}, vertex={bool(mask[i])})'
+    return None
+
+
+def shift_exact(y, c):
+    """is the float sum y + c the exact sum (so that the model's shiftPts sees the same data as the code)?"""
+    return all(Fraction(float(a)) + Fraction(float(c)) == Fraction(float(a + c)) for a in y)
+
+
+def rubberband_sections(n, segments):
+    """the segment boundaries exactly as `_Classification.rubberband` computes them (classification.py: `np.linspace(0, size,
+    sections + 1, dtype=np.intp)` for an int, `np.unique(concatenate(([0], sections, [size])))` for a sequence)"""
+    if np.isscalar(segments):
+        return [int(v) for v in np.linspace(0, n, int(segments) + 1, dtype=np.intp)]
+    return [int(v) for v in np.unique(np.concatenate(([0], np.asarray(segments, dtype=np.intp), [n])))]
+
+
 def correspond(ctx):
     from pybaselines import Baseline, Baseline2D
     from pybaselines.utils import pad_edges
@@ -76,6 +111,11 @@ def correspond(ctx):
     def add(line, real, meta, exact=True):
         lines.append(line)
         checks.append((real, meta, exact))
+
+    def add_interp(xa, ya, maska, base, meta):
+        lines.append(f'c14.hullinterp {qs(xa)} {qs(ya)} {",".join(str(int(v)) for v in maska)}')
+        checks.append(((np.array(base, dtype=float), np.asarray(maska, dtype=bool), float(np.max(np.abs(ya)))), meta, 'interp'))
+        ctx.count('rubberband:interp')
 
     reps = 4 if ctx.thorough else 1
     sizes = [3, 4, 5, 7, 10, 16, 31] + ([64, 150] if ctx.thorough else [])
@@ -213,6 +253,28 @@ def correspond(ctx):
         mask = p['mask']
         lines.append(f'c14.hull {qs(x)} {qs(y)} {",".join(str(int(v)) for v in mask)}')
         checks.append((None, dict(meta, mask=mask.astype(int).tolist()), 'hull'))
+        # the baseline itself is np.interp through the masked vertices: model `hullInterp` on the same exact rationals
+        add_interp(x, y, mask, b, dict(meta, mask=mask.astype(int).tolist(), check='interp'))
+        # ... and for the shifted data (theorem lowerHull_shift: same certificate verdict, interpolant + c), with the mask the
+        # code returned for y + c
+        m1 = p1['mask']
+        if shift_exact(y, c):
+            lines.append(f'c14.hullshift {q(c)} {qs(x)} {qs(y)} {",".join(str(int(v)) for v in m1)}')
+            checks.append(((b1, m1, float(np.max(np.abs(y + c)))), dict(meta, mask=m1.astype(int).tolist(), check='interp-shift'), 'interp-shift'))
+            ctx.count('rubberband:interp-shift')
+        else:
+            add_interp(x, y + c, m1, b1, dict(meta, y=(y + c).tolist(), mask=m1.astype(int).tolist(), check='interp'))
+        # user weights knock vertices out of the mask (`np.logical_and(mask, weight_array)`), possibly the end points: np.interp then
+        # continues the first / last kept ordinate as a constant — the outer branches of the model `interp1` (no certificate here: the
+        # mask is no longer the hull)
+        w = (rng.random(n) < 0.6).astype(float)
+        try:
+            bw, pw = Baseline(x).rubberband(y, weights=w)
+        except Exception:
+            ctx.count('rubberband:weights:raises')      # every vertex knocked out: np.interp refuses an empty sample list
+        else:
+            ctx.count('rubberband:weights:' + ('end-dropped' if not (pw['mask'][0] and pw['mask'][-1]) else 'ends-kept'))
+            add_interp(x, y, pw['mask'], bw, dict(meta, mask=pw['mask'].astype(int).tolist(), weights=w.tolist(), check='interp'))
         scale = max(1.0, float(np.max(np.abs(y))))
         if np.any(b > y + 1e-9 * scale):
             dis.append(Disagreement('c14.le', 'le:rubberband', 'rubberband baseline exceeds the data', dict(meta, check='le'), True))
@@ -258,6 +320,24 @@ def correspond(ctx):
                                     dict(meta, check='touch'), True))
         if not np.allclose(b1, b + c, rtol=0, atol=1e-9 * (scale + abs(c))):
             dis.append(Disagreement('c14.shift', 'shift:rubberband:segments', 'rubberband with segments does not commute with a shift', dict(meta, check='shift'), True))
+        # per segment [l, r): both ends are hull vertices of the segment, so np.interp over the whole mask restricted to the segment
+        # is the interpolant through the segment's own masked points: model `hullInterp` per segment; on exactly representable
+        # (integer / half-integer) data the segment's part of the mask must also pass the exact certificate
+        secs = rubberband_sections(n, segarg)
+        exact_data = bool(np.all(y * 2 == np.round(y * 2)))
+        for (bb, pp, yy) in ((b, p, y), (b1, p1, y + c)):
+            mk = pp['mask']
+            for l_, r_ in zip(secs[:-1], secs[1:]):
+                smeta = dict(meta, y=yy.tolist(), mask=mk.astype(int).tolist(), segment=[l_, r_], check='interp')
+                if not (mk[l_] and mk[r_ - 1]):
+                    dis.append(Disagreement('c14.hull', 'hull:segment-ends', f'rubberband(segments={segarg}, N={n}): an end point of segment '
+                                            f'[{l_},{r_}) is not in the mask', dict(smeta, check='cert'), True))
+                    continue
+                add_interp(x[l_:r_], yy[l_:r_], mk[l_:r_], bb[l_:r_], smeta)
+                if exact_data:
+                    lines.append(f'c14.hull {qs(x[l_:r_])} {qs(yy[l_:r_])} {",".join(str(int(v)) for v in mk[l_:r_])}')
+                    checks.append((None, dict(smeta, check='cert'), 'hull'))
+                    ctx.count('rubberband-segments:cert')
     res = drive(lines)
     ctx.traces += len(lines)
     for ln, r, (real, meta, exact) in zip(lines, res, checks):
@@ -265,6 +345,18 @@ def correspond(ctx):
             if r != '1':
                 dis.append(Disagreement('c14.hull', 'hull:certificate', 'the mask returned by rubberband is not the lower convex hull '
                                         'of the points (certificate rejected)', dict(meta, check='cert'), True))
+            continue
+        if exact in ('interp', 'interp-shift'):
+            base, mk, ysc = real
+            if exact == 'interp-shift':
+                verdict, _, r = r.partition(' ')
+                if verdict != '1':
+                    dis.append(Disagreement('c14.hull', 'hull:certificate', 'the mask returned by rubberband for the shifted data is not '
+                                            'the lower convex hull of the shifted points (certificate rejected)', dict(meta, check='cert-shift'), True))
+            why = interp_mismatch(base, parse_qs(r), mk, ysc)
+            if why:
+                dis.append(Disagreement('c14.model', 'model:rubberband:interp', 'rubberband baseline differs from the model interpolant through '
+                                        f'the returned mask (np.interp(x, x[mask], y[mask]) = hullInterp): {why}', dict(meta, line=ln[:80]), False))
             continue
         pred = [v for row in parse_mat(r) for v in row]
         ok = exact_list(real, pred) if exact else close_list(real, pred)
@@ -310,6 +402,32 @@ def replay(ctx, data):
                 sc = max(1.0, float(np.max(np.abs(y))) + abs(r['shift']))
                 return None if np.allclose(b1, b + r['shift'], rtol=0, atol=1e-9 * sc) else \
                     f'snip shift law fails by {float(np.max(np.abs(b1 - b - r["shift"]))):.3g}'
+        if m == 'rubberband':
+            x, y = np.array(r['x'], dtype=float), np.array(r['y'], dtype=float)
+            kw = {'segments': r['segments']} if 'segments' in r else {}
+            if 'weights' in r:
+                kw['weights'] = np.array(r['weights'])
+            b, p = Baseline(x).rubberband(y, **kw)
+            mk = p['mask']
+            sc = max(1.0, float(np.max(np.abs(y))))
+            if chk == 'le':
+                return None if np.all(b <= y + 1e-9 * sc) else 'rubberband baseline exceeds the data'
+            if chk == 'touch':
+                ends = [0, -1] if kw else mk
+                return None if np.allclose(b[ends], y[ends], rtol=0, atol=1e-9 * sc) else 'rubberband baseline does not touch the data'
+            if chk == 'convex':
+                sl = np.diff(b) / np.diff(x)
+                return None if np.all(np.diff(sl) >= -1e-9 * max(1.0, float(np.max(np.abs(sl))))) else 'rubberband baseline is not convex'
+            if chk == 'shift':
+                b1 = Baseline(x).rubberband(y + r['shift'], **kw)[0]
+                return None if np.allclose(b1, b + r['shift'], rtol=0, atol=1e-9 * (sc + abs(r['shift']))) else 'shift law fails'
+            if chk in ('cert', 'interp'):
+                l_, r_ = r.get('segment', [0, len(y)])
+                ms = ','.join(str(int(v)) for v in mk[l_:r_])
+                cert, pred = drive([f'c14.hull {qs(x[l_:r_])} {qs(y[l_:r_])} {ms}', f'c14.hullinterp {qs(x[l_:r_])} {qs(y[l_:r_])} {ms}'])
+                if chk == 'cert':
+                    return None if cert == '1' else 'the returned mask is not the lower convex hull (certificate rejected)'
+                return interp_mismatch(b[l_:r_], parse_qs(pred), mk[l_:r_], float(np.max(np.abs(y[l_:r_]))))
         if m and m.endswith('2d'):
             Y = np.array(r['Y'])
             fit = Baseline2D()
